@@ -588,6 +588,9 @@ func (c *cinst) Check(res *mcrt.Result) []explore.Violation {
 	if res.Deadlock {
 		vs = append(vs, explore.Violation{Prop: "C18", Msg: fmt.Sprintf("deadlock %v", res.BlockedOn)})
 	}
+	if res.Capped {
+		vs = append(vs, explore.Violation{Prop: "C18", Msg: fmt.Sprintf("execution did not finish within the step limit (%d steps)", res.Steps)})
+	}
 	if res.Capped || res.Deadlock || len(res.Panics) > 0 {
 		return vs
 	}
